@@ -126,6 +126,10 @@ def check_inst(it, data, here, labels, consts, rng):
     return [], info
 
 
+PAIRS = [(0, 0), (1, 0), (0xffffffff, 0), (0x80000000, 0), (0x7fffffff, 0), (0, 1), (5, 5), (0x80000000, 1), (1, 0x80000000),
+         (0xffffffff, 1), (1, 0xffffffff), (2, 3), (3, 2), (0, 0xffffffff), (0x80000000, 0x7fffffff), (0x7fffffff, 0x80000000)]
+
+
 def check_pseudo(it, data, here, labels, consts, rng, out, nregs=6, base=0):
     """execute the chunk from several register files and compare with the documented effect.
     `out` is the whole binary (the chunk lives at [here, here+len(data)))."""
@@ -140,8 +144,17 @@ def check_pseudo(it, data, here, labels, consts, rng, out, nregs=6, base=0):
         return ['pseudo-instruction emitted %d instructions' % len(parts)], info
     problems = []
     taken = set()
-    for rf in iss.regfiles(rng, nregs):
-        # make conditions interesting: force some operand registers to corner values
+    opregs = [P.regno(o, consts) for o in ops if 'r' in o or 'cr' in o]
+    k0 = rng.randrange(len(PAIRS))
+    for k, rf in enumerate(iss.regfiles(rng, nregs)):
+        # make conditions interesting: force the operand registers to corner pairs (both branch outcomes)
+        if opregs and (m in BRANCH_COND or m in UNARY):
+            a, b = PAIRS[(k0 + k) % len(PAIRS)]
+            rf = list(rf)
+            rf[opregs[0]] = a
+            if len(opregs) > 1:
+                rf[opregs[1]] = b
+            rf[0] = 0
         mach = iss.Machine(rf, pc=here, code=out)
         pre = list(mach.x)
         steps = 0
